@@ -5,6 +5,9 @@ package liquid
 
 import (
 	"errors"
+	"strings"
+
+	"github.com/osteele/liquid/render"
 
 	nd "github.com/osteele/liquid/zz_verifnd"
 )
@@ -71,6 +74,9 @@ var c20Templates = []string{
 	"t\n{% if x %}{% raw %}r{% endraw %}{% endif %}\n{% unless x %}{% else %}e{% endunless %}",
 	// left-trim markers whose pending text is empty or all whitespace: zero-length writes
 	"{{- x }} tail",
+	// registered blocks and tags write through the same writer
+	"head {% shout %}abc{% endshout %} tail",
+	"{% for i in (1..2) %}{% shout %}x{{ i }}{% endshout %}{% hello %}{% endfor %}!",
 	"{{ x -}} \n {%- assign y = 1 %}",
 	"  \n{{- x }}{%- if x -%}  {%- endif -%}  {{- y }}",
 }
@@ -79,6 +85,11 @@ func c20Engine() *Engine {
 	e := NewEngine()
 	_, err := e.ParseTemplateAndCache([]byte("INC{{ x }}"), "inc.html", 1)
 	nd.Assert(err == nil, "include-source-parses")
+	e.RegisterBlock("shout", func(c render.Context) (string, error) {
+		s, err := c.InnerString()
+		return strings.ToUpper(s), err
+	})
+	e.RegisterTag("hello", func(render.Context) (string, error) { return "hi", nil })
 	return e
 }
 
